@@ -286,3 +286,20 @@ def check(ctx):
     # walk of the ancestor chain (shared with C04/R04-a)
     from .walkers import check_walker
     check_walker(ctx, "R05-g", ctx.fn("CancelScope._effectively_cancelled", A))
+
+    # ---- R05-h a native cancellation that interrupts the join is the one that propagates: in TaskGroup.__aexit__ the caught
+    # CancelledError replaces the exception carried so far exactly when there is none, or when the carried one is a cancellation and the
+    # *caught* one is native (not AnyIO's) - testing the carried one instead would let the scope absorb AnyIO's and drop the native request
+    aexit_tg = ctx.fn("TaskGroup.__aexit__", A)
+    ev = aexit_tg.node.args.args[2].arg if len(aexit_tg.node.args.args) > 2 else "exc_val"
+    n_rep = 0
+    for h_ in [x for x in own_walk(aexit_tg.node) if isinstance(x, ast.ExceptHandler) and x.name and x.type is not None and "CancelledError" in ast.unparse(x.type)]:
+        # (the carried exception, or a result temporary of an inlined selection helper that is then stored into it)
+        tgts = [ev] + sorted({x.value.id for x in ast.walk(h_) if isinstance(x, ast.Assign) and isinstance(x.value, ast.Name)
+                              and x.value.id != h_.name and ast.unparse(x.targets[0]) == ev})
+        for st_, _ in [(s_, e_) for t_ in tgts for s_, e_ in ctx.sites(aexit_tg, f"{t_} = {h_.name}") if any(y is s_ for y in ast.walk(h_))]:
+            n_rep += 1
+            ctx.require_at("R05-h", aexit_tg, st_, [[f"{ev} is None"], [f"isinstance({ev}, CancelledError)", f"not is_anyio_cancellation({h_.name})"]],
+                           instance="the caught cancellation replaces the carried exception only if that is absent, or a cancellation while the caught one is native",
+                           what="replacement of exc_val", native=True)      # (the checkpoint handler is reached by native cancellation only)
+    ctx.need("R05-h", aexit_tg, "sites where a cancellation caught during the join becomes the exception to propagate", n_rep, 1)
